@@ -150,6 +150,12 @@ func NewReplacePatch(doc string) (Patch, error) {
 		return nil, err
 	}
 
+	if parsed == nil {
+		// JSON null: the patch would carry a nil map, which validates as an empty replace document
+		// here but serialises as null and is refused by the validator once parsed back
+		return nil, errors.New("replace document must not be null")
+	}
+
 	if err := validateReplaceDocument(parsed); err != nil {
 		return nil, err
 	}
